@@ -40,8 +40,8 @@ impl DcpsSubscriberListener {
                             .on_requested_incompatible_qos(the_reader, status)
                             .await;
                     }
-                    ListenerMail::DataAvailable { the_reader: _ } => {
-                        panic!("Not valid for subscriber")
+                    ListenerMail::DataAvailable { the_reader } => {
+                        listener.on_data_available(the_reader).await;
                     }
                     ListenerMail::PublicationMatched {
                         the_writer: _,
